@@ -690,4 +690,63 @@ example : verifyTx { chainDemo with bad := fun n => n == .acct 0 } txTakeover = 
     verifyTx { chainDemo with bad := fun n => n == .acct 3 } txGood = true := by
   decide
 
+/-! ### the unit of the weights is immaterial (wave 6: rules in units `2^-e`, huge and tiny values)
+
+The harness writes a threshold rule as integers in a unit `2^-e` and hands the code the float64 values
+`w * 2^-e` (exact, and exact in every sum the code can form, for `|theta| + Σ|w| < 2^53`).  The rule means the same in
+every unit: multiplying threshold and weights by the same positive number changes no evaluation, so the model over
+integers speaks for every unit; what the comparison must NOT depend on is the magnitude (fixed point, float32, an
+epsilon) - that is what the correspondence on the wide universe checks. -/
+
+def scaleMembers (k : Int) (ms : List (Name × Int)) : List (Name × Int) := ms.map (fun m => (m.1, k * m.2))
+
+theorem weightOf_scale (k : Int) (ms : List (Name × Int)) (n : Name) :
+    weightOf (scaleMembers k ms) n = k * weightOf ms n := by
+  induction ms with
+  | nil => simp [scaleMembers, weightOf]
+  | cons m ms ih =>
+    obtain ⟨a, w⟩ := m
+    simp only [scaleMembers, List.map_cons, weightOf] at ih ⊢
+    split
+    · rfl
+    · exact ih
+
+theorem sumW_scale (k : Int) (ms : List (Name × Int)) (cs : List Name) :
+    sumW (scaleMembers k ms) cs = k * sumW ms cs := by
+  induction cs with
+  | nil => simp [sumW]
+  | cons c cs ih => simp [sumW, ih, weightOf_scale, Int.mul_add]
+
+/-- `ThresholdValidator` answers the same whatever unit threshold and weights are written in -/
+theorem threshold_unit_irrelevant (k : Int) (hk : 0 < k) (ms : List (Name × Int)) (theta : Int)
+    (kids : List (Name × Bool)) :
+    thresholdOk (scaleMembers k ms) (k * theta) kids = thresholdOk ms theta kids := by
+  unfold thresholdOk
+  rw [sumW_scale]
+  by_cases h : theta ≤ sumW ms (okNames kids)
+  · have : k * theta ≤ k * sumW ms (okNames kids) := Int.mul_le_mul_of_nonneg_left h (Int.le_of_lt hk)
+    simp [h, this]
+  · have h' : sumW ms (okNames kids) < theta := Int.lt_of_not_ge h
+    have : ¬ k * theta ≤ k * sumW ms (okNames kids) := Int.not_le.mpr (Int.mul_lt_mul_of_pos_left h' hk)
+    simp [h, this]
+
+/-- and so does the specification -/
+theorem memberSum_scale (k : Int) (ms : List (Name × Int)) (S : Name → Bool) :
+    memberSum (scaleMembers k ms) S = k * memberSum ms S := by
+  induction ms with
+  | nil => simp [scaleMembers, memberSum]
+  | cons m ms ih =>
+    obtain ⟨a, w⟩ := m
+    simp only [scaleMembers, List.map_cons, memberSum] at ih ⊢
+    rw [ih]
+    split <;> simp [Int.mul_add]
+
+/-- a frozen rule (threshold above the sum of the positive weights... here: above every reachable sum) and a
+master key behave as the property says at every magnitude: closed examples at 10^15 and at one unit from the boundary -/
+example : thresholdOk [(.key 0, 1), (.key 1, 1)] 1000000000000000 [(.key 0, true), (.key 1, true)] = false ∧
+    thresholdOk [(.key 0, 1000000000000000), (.key 1, 1)] 1 [(.key 0, true)] = true ∧
+    thresholdOk [(.key 0, 2251799813685248)] 2251799813685249 [(.key 0, true)] = false ∧
+    thresholdOk [(.key 0, 2251799813685248), (.key 1, 1)] 2251799813685249 [(.key 0, true), (.key 1, true)] = true := by
+  decide
+
 end XV.C11
